@@ -6,6 +6,7 @@
         | {"t":<type>,"rows":[…sorted canonical rows…]}          cmp = rows
         | {"t":<type>,"n":<row count>,"sub":true}                cmp = nsub  (limit/skip/range tail)
         | {"t":<type>,"sub":true}                                cmp = sub   (truncation mid-way)
+    {"op":"build","pre":[…],"e1":[…],"e2":[…]}  → {"a": pre++e1, "b": pre++e2, "p": pre}   (gripql.Query builder)
   For `nsub`/`sub` the harness compares the real rows with the rows of the traversal without its
   truncation steps; the MODEL's answer `sub = true` is what `Props.C01.trunc_tail_sub` proves, and
   `n` is order-independent by `Props.C01.trunc_tail_count`.
@@ -35,6 +36,13 @@ def step (g : AGraph) (j : Json) : AGraph × Json :=
         | some "sub" => (g, Json.mkObj [t, ("sub", .bool true)])
         | _ => (g, Json.mkObj [t, ("rows", canonRows rows)])
       | _, _ => (g, Json.mkObj [("err", .str "compile")])
+  | some "build" =>
+    -- the client-side query builder is persistent: a query derived from a prefix is the prefix's
+    -- statements followed by its own, whatever else is derived from the same prefix
+    match arr? j "pre", arr? j "e1", arr? j "e2" with
+    | some pre, some e1, some e2 =>
+      (g, Json.mkObj [("a", .arr (pre ++ e1).toArray), ("b", .arr (pre ++ e2).toArray), ("p", .arr pre.toArray)])
+    | _, _, _ => (g, Drv.bad "build: pre/e1/e2")
   | _ => (g, Drv.bad "unknown op")
 
 def main : IO Unit := Drv.runLoop AGraph.empty step
